@@ -55,33 +55,25 @@ theorem hasCiSub_tail_false {p : Line} {c : Char} {cs : Line} (h : hasCiSub p (c
 
 /-! ## rule 1 -/
 
-theorem beforeSub_none {pat : Line} : ∀ {b : Line}, hasSub pat b = false → beforeSub pat b = none := by
-  intro b
-  induction b with
-  | nil => intro h; simp only [hasSub] at h; simp [beforeSub, h]
-  | cons c cs ih =>
-    intro h
-    obtain ⟨h1, h2⟩ := hasSub_tail_false h
-    simp [beforeSub, h1, ih h2]
-
 theorem ruleIbm_id {b : Line} (nl : Bool) (h : hasSub tProcess b = false) : ruleIbm b nl = (b, nl, false) := by
   unfold ruleIbm
-  rw [beforeSub_none h]
-  cases nl <;> rfl
+  have : (litLen tProcess (b.dropWhile isWs)).isSome = false := by
+    cases hl : (litLen tProcess (b.dropWhile isWs)).isSome with
+    | false => rfl
+    | true =>
+      rw [any_dropWhile (hasSub_cons _) isWs b (hasSub_of_litLen hl)] at h
+      exact absurd h (by simp)
+  simp [this]
 
 theorem ruleIbm_not_fired {b : Line} {nl : Bool} (h : (ruleIbm b nl).2.2 = false) : ruleIbm b nl = (b, nl, false) := by
   unfold ruleIbm at h ⊢
-  cases nl with
-  | false => rfl
-  | true =>
-    simp only [if_true] at h ⊢
-    cases hb : beforeSub tProcess b with
-    | none => rfl
-    | some pre => rw [hb] at h; simp at h
+  split
+  · rename_i hc; simp [hc] at h
+  · rfl
 
 /-! ## rule 2 -/
 
-theorem lastTokEnd_none : ∀ {r : Line}, hasTok strToks r = false → lastTokEnd r = none := by
+theorem lastTokEnd_none {toks : List Line} : ∀ {r : Line}, hasTok toks r = false → lastTokEnd toks r = none := by
   intro r
   induction r with
   | nil => intro _; rfl
@@ -90,20 +82,20 @@ theorem lastTokEnd_none : ∀ {r : Line}, hasTok strToks r = false → lastTokEn
     obtain ⟨h1, h2⟩ := hasTok_cons_false h
     simp [lastTokEnd, ih h2, h1]
 
-theorem directiveLen_none {b : Line} (h : hasTok strToks b = false) : directiveLen b = none := by
+theorem directiveLen_none {toks : List Line} {b : Line} (h : hasTok toks b = false) : directiveLen toks b = none := by
   unfold directiveLen
   have hsplit := List.takeWhile_append_dropWhile (p := isWs) (l := b)
   split
   · rename_i r hr
     rw [hr] at hsplit
-    have : hasTok strToks r = false := by
+    have : hasTok toks r = false := by
       apply hasTok_suffix (List.takeWhile isWs b ++ ['#'])
       simpa [hsplit] using h
     simp [lastTokEnd_none this]
   · rfl
 
-theorem ruleStrPP_id {b : Line} (h : hasTok strToks b = false) : ruleStrPP b = (b, []) := by
-  unfold ruleStrPP
+theorem rulePP_id {toks : List Line} {f : Line → Line} {b : Line} (h : hasTok toks b = false) : rulePP toks f b = (b, []) := by
+  unfold rulePP
   rw [directiveLen_none h]
   simp [scan_id h, scanHits_nil h]
 
@@ -224,35 +216,22 @@ theorem fyppAt_sub {l : Line} (h : fyppAt l = true) : hasSub tFypp l = true ∨ 
     · exact Or.inr (hasSub_cons _ _ _ (hasSub_cons _ _ _ (hasSub_cons _ _ _ h')))
   · simp at h
 
-theorem fyppFind_none : ∀ {l : Line}, hasSub tFypp l = false → hasSub tHypp l = false → fyppFind l = none := by
-  intro l
-  induction l with
-  | nil => intro _ _; rfl
-  | cons c cs ih =>
-    intro h1 h2
-    have hat : fyppAt (c :: cs) = false := by
-      cases ha : fyppAt (c :: cs) with
-      | false => rfl
-      | true =>
-        rcases fyppAt_sub ha with h | h
-        · rw [h] at h1; exact absurd h1 (by simp)
-        · rw [h] at h2; exact absurd h2 (by simp)
-    simp [fyppFind, hat, ih (hasSub_tail_false h1).2 (hasSub_tail_false h2).2]
-
 theorem ruleFypp_id {b : Line} (nl : Bool) (h1 : hasSub tFypp b = false) (h2 : hasSub tHypp b = false) :
     ruleFypp b nl = (b, nl, false) := by
   unfold ruleFypp
-  rw [fyppFind_none h1 h2]
-  cases nl <;> rfl
+  have : fyppAt (b.dropWhile isWs) = false := by
+    cases ha : fyppAt (b.dropWhile isWs) with
+    | false => rfl
+    | true =>
+      rcases fyppAt_sub ha with h | h
+      · rw [any_dropWhile (hasSub_cons _) isWs b h] at h1; exact absurd h1 (by simp)
+      · rw [any_dropWhile (hasSub_cons _) isWs b h] at h2; exact absurd h2 (by simp)
+  simp [this]
 
 theorem ruleFypp_not_fired {b : Line} {nl : Bool} (h : (ruleFypp b nl).2.2 = false) : ruleFypp b nl = (b, nl, false) := by
   unfold ruleFypp at h ⊢
-  cases nl with
-  | false => rfl
-  | true =>
-    simp only [if_true] at h ⊢
-    cases hb : fyppFind b with
-    | none => rfl
-    | some s => rw [hb] at h; simp at h
+  split
+  · rename_i hc; simp [hc] at h
+  · rfl
 
 end LokiModel.C05
